@@ -4,12 +4,11 @@ From Coq Require Import List Arith Bool.
 Require Import TT.Model.Str TT.Model.C08Fingerprint TT.Model.C08Run.
 
 Definition c14_trace (p : project) (c : config) (h : list hstep) : list hobs :=
-  trace false (init_state p c, None) h.
+  trace true (init_state p c, None) h.
 (* do two discovery orders give different fingerprints? (never, after the repair: C14_fp_order_independent) *)
 Definition c14_order (w1 w2 : sched) (p : project) (c : config) : bool := negb (tree_eqb (fp w1 p c) (fp w2 p c)).
 Definition c14_order_files (w1 w2 : sched) (p : project) (c : config) : bool :=
-  negb (tree_eqb (fp_cmds (analyse w1 p)) (fp_cmds (analyse w2 p))).
-Definition c14_path (w : sched) (p1 p2 : project) (c : config) : bool := kf_C14_path w p1 p2 c.
+  negb (tree_eqb (fp_cmds nil (analyse w1 p)) (fp_cmds nil (analyse w2 p))).
 Definition c14_valid_sched := valid_sched.
 (* property predicates on what the implementation did *)
 Definition c14_idem_ok (r : cresult) (rewritten : nat) : bool :=
@@ -18,4 +17,4 @@ Definition c14_force_ok (r : cresult) (all_rewritten : bool) : bool :=
   match r with Success => all_rewritten | _ => false end.
 
 Extraction Language OCaml.
-Extraction "tt_c14.ml" c14_trace c14_order c14_order_files c14_path c14_valid_sched c14_idem_ok c14_force_ok.
+Extraction "tt_c14.ml" c14_trace c14_order c14_order_files c14_valid_sched c14_idem_ok c14_force_ok.
